@@ -527,11 +527,11 @@ type c12Machine struct {
 	ok  int
 	// shadow is the application that imported an as-is export of n at height shadowFrom; from then on every
 	// block of the history is executed on both, and the re-imported chain must keep behaving like the original.
-	shadow                               *chain.Node
-	shadowFrom                           int64
-	forks, shadowBlocks, shadowTxs       int
-	shadowOK, shadowDue, shadowCompared  int
-	zhBlocks, shadowEnded, forkSkipped   int
+	shadow                              *chain.Node
+	shadowFrom                          int64
+	forks, shadowBlocks, shadowTxs      int
+	shadowOK, shadowDue, shadowCompared int
+	zhBlocks, shadowEnded, forkSkipped  int
 }
 
 func newC12() pbt.Machine[blockOp] {
